@@ -98,7 +98,7 @@ PAIRS = [
     ("am", "pctsp", dict(base=True)),
     ("am", "spctsp", dict(base=True)),
     ("am", "pdp", dict(base=True)),
-    ("am", "mtsp:minmax", dict(base=True, no_batch1=True)),
+    ("am", "mtsp:minmax", dict(base=True)),
     ("am", "mdcpdp:minsum:close:D1", dict(base=True)),
     ("am", "mtvrp:cvrp", dict(base=True)),
     ("am", "mtvrp:ovrpbltw", dict(base=True)),
